@@ -322,6 +322,8 @@ def run(ctx):
     from .c07 import rule_tracked_dump
     from .persist import rule_close_writes, rule_exit_persists
     rule_tracked_dump(ctx, r2)
+    from .persist import rule_table_ownership
+    rule_table_ownership(ctx, r2, ("tracked jobs",))
     rule_exit_persists(ctx, r2, ("tracked jobs",))
     rule_close_writes(ctx, r2, ("tracked jobs",))
     # id normalisation per backend: what the scheduler prints on submission -> the id gwf tracks
